@@ -643,6 +643,11 @@ impl Stream {
         }).collect()
     }
 
+    /// The lock-free copy of the last id (read-only accessor).
+    pub fn verif_last_id_counter(&self) -> (u64, u64) {
+        (self.last_id_millis.load(Ordering::Relaxed), self.last_id_seq.load(Ordering::Relaxed))
+    }
+
     /// Consumer groups of this stream (read-only accessor).
     pub fn verif_groups(&self) -> Vec<Arc<ConsumerGroup>> {
         self.consumer_groups.list_groups()
